@@ -1,8 +1,11 @@
 package props
 
 import (
+	"bytes"
 	"fmt"
 	"go/ast"
+	"go/printer"
+	"go/scanner"
 	"go/token"
 	"go/types"
 	"regexp"
@@ -459,4 +462,411 @@ func init() {
 		}
 		fmt.Printf("== %d accumulators, %d updates, %d issues\n", nacc, nupd, len(issues))
 	}
+}
+
+// direction flags: a bool parameter d with an `if d {A} else {B}` (or !d) whose arms write only X-axis places in
+// one arm and only Y-axis places in the other is the function's direction switch. In such a function every
+// displacement that is specific to one axis (p.X += v / p.Y += v without its mirror in the same block, or a call
+// f(0, v) / f(v, 0)) must sit under a test of d: otherwise it is applied in both directions of the layout.
+type dirIssue struct {
+	Fi   *core.FuncInfo
+	Pos  token.Pos
+	Key  string
+	Text string
+}
+
+func directionGuardIssues(p *core.Prog, pkgs []*packages.Package) (issues []dirIssue, nflags, nsites int) {
+	for _, pk := range pkgs {
+		for _, fi := range p.Funcs(pk) {
+			if fi.Decl.Body == nil || fi.Decl.Type.Params == nil {
+				continue
+			}
+			info := fi.Pkg.TypesInfo
+			var flags []types.Object
+			for _, f := range fi.Decl.Type.Params.List {
+				for _, nm := range f.Names {
+					o := info.Defs[nm]
+					if o == nil {
+						continue
+					}
+					if b, ok := o.Type().Underlying().(*types.Basic); !ok || b.Kind() != types.Bool {
+						continue
+					}
+					if isDirectionFlag(info, fi.Decl.Body, o) {
+						flags = append(flags, o)
+					}
+				}
+			}
+			if len(flags) == 0 {
+				continue
+			}
+			nflags += len(flags)
+			// the declaration's body and every function literal in it are separate flow graphs
+			bodies := []*ast.BlockStmt{fi.Decl.Body}
+			ast.Inspect(fi.Decl.Body, func(n ast.Node) bool {
+				if l, ok := n.(*ast.FuncLit); ok {
+					bodies = append(bodies, l.Body)
+				}
+				return true
+			})
+			counts := map[string]int{}
+			for _, body := range bodies {
+				fl := core.NewFlow(fi.Pkg, body)
+				mentions := func(e ast.Expr) bool {
+					found := false
+					ast.Inspect(e, func(n ast.Node) bool {
+						if id, ok := n.(*ast.Ident); ok {
+							for _, o := range flags {
+								if info.Uses[id] == o {
+									found = true
+								}
+							}
+						}
+						return !found
+					})
+					return found
+				}
+				guarded := func(n ast.Node) bool {
+					for _, g := range fl.GuardsOfNode(n) {
+						if mentions(g.Cond) {
+							return true
+						}
+					}
+					return false
+				}
+				report := func(n ast.Node, what string) {
+					key := fmt.Sprintf("direction:%s:%s", fname(fi), what)
+					counts[key]++
+					if counts[key] > 1 {
+						key = fmt.Sprintf("%s#%d", key, counts[key])
+					}
+					issues = append(issues, dirIssue{fi, n.Pos(), key, what})
+				}
+				var visitBlock func(list []ast.Stmt)
+				visitBlock = func(list []ast.Stmt) {
+					// axis-specific writes of this block (not nested): collect per axis
+					var xs, ys []*ast.AssignStmt
+					for _, st := range list {
+						as, ok := st.(*ast.AssignStmt)
+						if !ok || len(as.Lhs) != 1 || as.Tok == token.DEFINE {
+							continue
+						}
+						sel, ok := as.Lhs[0].(*ast.SelectorExpr)
+						if !ok {
+							continue
+						}
+						switch sel.Sel.Name {
+						case "X":
+							xs = append(xs, as)
+						case "Y":
+							ys = append(ys, as)
+						}
+					}
+					if (len(xs) == 0) != (len(ys) == 0) {
+						for _, as := range append(xs, ys...) {
+							nsites++
+							if !guarded(as) {
+								report(as, exprStr(as.Lhs[0])+" "+as.Tok.String()+" "+exprStr(as.Rhs[0]))
+							}
+						}
+					}
+				}
+				ast.Inspect(body, func(n ast.Node) bool {
+					switch x := n.(type) {
+					case *ast.FuncLit:
+						return false
+					case *ast.BlockStmt:
+						visitBlock(x.List)
+					case *ast.CaseClause:
+						visitBlock(x.Body)
+					case *ast.CallExpr:
+						if len(x.Args) != 2 {
+							return true
+						}
+						z0, z1 := isZeroConst(info, x.Args[0]), isZeroConst(info, x.Args[1])
+						if z0 == z1 {
+							return true
+						}
+						for _, a := range x.Args {
+							if t := info.TypeOf(a); t == nil {
+								return true
+							} else if b, ok := t.Underlying().(*types.Basic); !ok || b.Info()&types.IsFloat == 0 {
+								return true
+							}
+						}
+						// only calls into the module whose two parameters are named for the two axes (dx, dy)
+						callee := core.CalleeOf(info, x)
+						if callee == nil || callee.Pkg() == nil || !strings.HasPrefix(callee.Pkg().Path(), "oss.terrastruct.com/d2") {
+							return true
+						}
+						sig := callee.Type().(*types.Signature)
+						if sig.Params().Len() != 2 || axisOfName(sig.Params().At(0).Name()) != axX || axisOfName(sig.Params().At(1).Name()) != axY {
+							return true
+						}
+						nsites++
+						if !guarded(x) {
+							report(x, exprStr(x))
+						}
+					}
+					return true
+				})
+			}
+		}
+	}
+	return
+}
+
+func isZeroConst(info *types.Info, e ast.Expr) bool {
+	tv, ok := info.Types[e]
+	if !ok || tv.Value == nil {
+		return false
+	}
+	return tv.Value.String() == "0"
+}
+
+func isDirectionFlag(info *types.Info, body *ast.BlockStmt, flag types.Object) bool {
+	is := false
+	ast.Inspect(body, func(n ast.Node) bool {
+		ifs, ok := n.(*ast.IfStmt)
+		if !ok || is {
+			return !is
+		}
+		c := ast.Unparen(ifs.Cond)
+		if u, ok := c.(*ast.UnaryExpr); ok && u.Op == token.NOT {
+			c = ast.Unparen(u.X)
+		}
+		id, ok := c.(*ast.Ident)
+		if !ok || info.Uses[id] != flag {
+			return true
+		}
+		eb, ok := ifs.Else.(*ast.BlockStmt)
+		if !ok {
+			return true
+		}
+		a, b := armWriteAxes(ifs.Body), armWriteAxes(eb)
+		if (a == axX && b == axY) || (a == axY && b == axX) {
+			is = true
+		}
+		return true
+	})
+	return is
+}
+
+// armWriteAxes: union of the axes of places written or read through X/Y selectors in the arm
+func armWriteAxes(b *ast.BlockStmt) axis {
+	var ax axis
+	ast.Inspect(b, func(n ast.Node) bool {
+		if sel, ok := n.(*ast.SelectorExpr); ok {
+			switch sel.Sel.Name {
+			case "X", "Width", "Left", "Right":
+				ax |= axX
+			case "Y", "Height", "Top", "Bottom":
+				ax |= axY
+			}
+		}
+		return true
+	})
+	return ax
+}
+
+// mirrored arms: when the two arms of an if/else are the same token sequence up to identifiers (one arm was
+// written by copying the other and renaming rows→columns, X→Y, Left→Top …), the renaming must be a consistent
+// one-to-one substitution: an identifier of the first arm always becomes the same identifier in the second,
+// and two different identifiers never become the same one. A half-applied renaming is the classic slip.
+type mirrorIssue struct {
+	Fi   *core.FuncInfo
+	Pos  token.Pos
+	Key  string
+	Text string
+}
+
+func armTokens(fset *token.FileSet, b *ast.BlockStmt) (toks []string, isIdent []bool) {
+	var buf bytes.Buffer
+	if err := printer.Fprint(&buf, fset, b); err != nil {
+		return nil, nil
+	}
+	src := buf.Bytes()
+	lo, hi := 0, len(src)
+	var s scanner.Scanner
+	fs := token.NewFileSet()
+	f := fs.AddFile("", fs.Base(), hi-lo)
+	s.Init(f, src[lo:hi], nil, 0)
+	for {
+		_, tok, lit := s.Scan()
+		if tok == token.EOF {
+			break
+		}
+		if tok == token.SEMICOLON && lit == "\n" {
+			toks = append(toks, ";")
+			isIdent = append(isIdent, false)
+			continue
+		}
+		if tok == token.IDENT {
+			toks = append(toks, lit)
+			isIdent = append(isIdent, true)
+			continue
+		}
+		if lit != "" {
+			toks = append(toks, lit)
+		} else {
+			toks = append(toks, tok.String())
+		}
+		isIdent = append(isIdent, false)
+	}
+	return
+}
+
+func mirrorArmIssues(p *core.Prog, pkgs []*packages.Package) (issues []mirrorIssue, npairs int) {
+	for _, pk := range pkgs {
+		for _, fi := range p.Funcs(pk) {
+			if fi.Decl.Body == nil {
+				continue
+			}
+			fset := fi.Pkg.Fset
+			counts := map[string]int{}
+			ast.Inspect(fi.Decl.Body, func(n ast.Node) bool {
+				ifs, ok := n.(*ast.IfStmt)
+				if !ok {
+					return true
+				}
+				eb, ok := ifs.Else.(*ast.BlockStmt)
+				if !ok {
+					return true
+				}
+				// the condition is a plain boolean switch (a flag or field, possibly negated), and both arms are
+				// at most three simple statements: a longer arm legitimately mixes the renaming (it may name both axes)
+				cond := ast.Unparen(ifs.Cond)
+				if u, ok := cond.(*ast.UnaryExpr); ok && u.Op == token.NOT {
+					cond = ast.Unparen(u.X)
+				}
+				switch cond.(type) {
+				case *ast.Ident, *ast.SelectorExpr:
+				default:
+					return true
+				}
+				if !simpleArm(ifs.Body) || !simpleArm(eb) {
+					return true
+				}
+				ta, ia := armTokens(fset, ifs.Body)
+				tb, ib := armTokens(fset, eb)
+				if len(ta) != len(tb) || len(ta) < 5 {
+					return true
+				}
+				ndiff := 0
+				for i := range ta {
+					if ia[i] != ib[i] || (!ia[i] && ta[i] != tb[i]) {
+						return true
+					}
+					if ta[i] != tb[i] {
+						ndiff++
+					}
+				}
+				if ndiff == 0 {
+					return true
+				}
+				npairs++
+				fwd, bwd := map[string]string{}, map[string]string{}
+				bad := ""
+				for i := range ta {
+					if !ia[i] {
+						continue
+					}
+					a, b := ta[i], tb[i]
+					if prev, ok := fwd[a]; ok && prev != b && isAxisWord(a) {
+						bad = fmt.Sprintf("%s becomes both %s and %s", a, prev, b)
+						break
+					}
+					if prev, ok := bwd[b]; ok && prev != a && isAxisWord(b) {
+						bad = fmt.Sprintf("both %s and %s become %s", prev, a, b)
+						break
+					}
+					fwd[a], bwd[b] = b, a
+				}
+				if bad != "" {
+					key := fmt.Sprintf("mirror:%s:if %s", fname(fi), exprStr(ifs.Cond))
+					counts[key]++
+					if counts[key] > 1 {
+						key = fmt.Sprintf("%s#%d", key, counts[key])
+					}
+					issues = append(issues, mirrorIssue{fi, ifs.Pos(), key, bad})
+				}
+				return true
+			})
+		}
+	}
+	return
+}
+
+func isAxisWord(name string) bool {
+	if axisOfName(name) != axNone {
+		return true
+	}
+	switch strings.ToLower(name) {
+	case "rows", "columns", "row", "column", "cols", "col":
+		return true
+	}
+	return false
+}
+
+func simpleArm(b *ast.BlockStmt) bool {
+	if len(b.List) == 0 || len(b.List) > 3 {
+		return false
+	}
+	for _, st := range b.List {
+		switch st.(type) {
+		case *ast.AssignStmt, *ast.IncDecStmt, *ast.ExprStmt, *ast.ReturnStmt:
+		default:
+			return false
+		}
+	}
+	return true
+}
+
+// ceiling division: (a + d - 1) / e is ceil(a/d) only when e is d
+type ceilIssue struct {
+	Fi   *core.FuncInfo
+	Pos  token.Pos
+	Key  string
+	Text string
+}
+
+func ceilDivIssues(p *core.Prog, pkgs []*packages.Package) (issues []ceilIssue, n int) {
+	for _, pk := range pkgs {
+		for _, fi := range p.Funcs(pk) {
+			if fi.Decl.Body == nil {
+				continue
+			}
+			info := fi.Pkg.TypesInfo
+			ast.Inspect(fi.Decl.Body, func(nd ast.Node) bool {
+				q, ok := nd.(*ast.BinaryExpr)
+				if !ok || q.Op != token.QUO {
+					return true
+				}
+				if t := info.TypeOf(q); t == nil {
+					return true
+				} else if b, ok := t.Underlying().(*types.Basic); !ok || b.Info()&types.IsInteger == 0 {
+					return true
+				}
+				// numerator: a + d - 1 (any association)
+				sub, ok := ast.Unparen(q.X).(*ast.BinaryExpr)
+				if !ok || sub.Op != token.SUB {
+					return true
+				}
+				if v, ok := intConst(info, sub.Y); !ok || v != 1 {
+					return true
+				}
+				add, ok := ast.Unparen(sub.X).(*ast.BinaryExpr)
+				if !ok || add.Op != token.ADD {
+					return true
+				}
+				n++
+				d := exprStr(ast.Unparen(q.Y))
+				if exprStr(ast.Unparen(add.X)) != d && exprStr(ast.Unparen(add.Y)) != d {
+					issues = append(issues, ceilIssue{fi, q.Pos(), fmt.Sprintf("ceildiv:%s:%s", fname(fi), exprStr(q)), fmt.Sprintf("%s rounds up only when the divisor %s is the term added before subtracting 1", exprStr(q), d)})
+				}
+				return true
+			})
+		}
+	}
+	return
 }
